@@ -98,6 +98,10 @@ Example C07_packed_bridge_nonvacuous :
   In (mkc 16 8) shipped /\ wf 8 27%N /\ packed_bucket (mkc 16 8) 27%N = Some 27%N /\
   packed_perm_score (mkc 16 8) [] true 27%N = Some 0%N.
 Proof. vm_compute. repeat split; auto 30. Qed.
+(* a real table (the reversed identity on 2-mers) in rc mode: AC scores 14, its reverse complement GT scores 4 *)
+Example C07_packed_score_table :
+  In (mkc 8 2) shipped /\ packed_perm_score (mkc 8 2) (map N.of_nat (rev (seq 0 16))) true 1%N = Some 4%N.
+Proof. vm_compute. split; auto 30. Qed.
 Print Assumptions C07_packed_perm_score.
 Print Assumptions C07_packed_bucket.
 
